@@ -29,9 +29,19 @@ _cache = {}
 def cases(rng, tier):
     N = 100 if tier == "quick" else 800
     for _ in range(N):
-        p = workflow.gen_problem(rng, max_q=5, max_cuts=2, depth=6)
-        p["form"] = "single" if rng.random() < 0.25 else "dict"
-        p["N"] = rng.choice([None, None, None, 1, 2, 7, 50, 50, 500, 500, 5000, 17.5])
+        r0 = rng.random()
+        if r0 < 0.15:
+            p = workflow.gen_chain_problem(rng)
+            p["form"] = "dict"
+            p["N"] = rng.choice([None, 7, 50, 500])
+        elif r0 < 0.2:
+            p = workflow.gen_many_cuts(rng)
+            p["form"] = "dict"
+            p["N"] = rng.choice([20, 60])
+        else:
+            p = workflow.gen_problem(rng, max_q=5, max_cuts=2, depth=6)
+            p["form"] = "single" if rng.random() < 0.25 else "dict"
+            p["N"] = rng.choice([None, None, None, 1, 2, 7, 50, 50, 500, 500, 5000, 17.5])
         p["seed"] = rng.randrange(1 << 30)
         yield ("generate", p)
 
@@ -187,6 +197,18 @@ def oracle(kind, payload):
         return f"generate_cutting_experiments raised {type(ex).__name__}: {ex}"
     from qiskit_addon_cutting.utils.observable_grouping import ObservableCollection
     bases = captured.get("bases", [])
+    if isinstance(circuits, dict) and bases:
+        # the joint basis list must be ordered by cut id (the `_<id>` label suffix), independently of the order in which the cuts are met
+        by_id = {}
+        for c in circuits.values():
+            for inst in c.data:
+                if inst.operation.name == "qpd_1q":
+                    by_id[int(inst.operation.label.rsplit("_", 1)[1])] = inst.operation.basis
+        want = [by_id[d] for d in sorted(by_id)]
+        if len(want) != len(bases) or any(a is not b for a, b in zip(want, bases)):
+            pos = [sorted(by_id).index(d) for d in by_id]
+            return (f"the joint basis list handed to the sampler is not ordered by cut id: {len(bases)} bases, position of each cut id in it "
+                    f"{[next((k for k, b in enumerate(bases) if b is w), None) for w in want]} instead of {list(range(len(want)))}")
     kappa = float(np.prod([b.kappa for b in bases])) if bases else 1.0
     tot = sum(abs(c) for c, _ in coeffs)
     if abs(tot - kappa) > 1e-8 * max(1.0, kappa):
@@ -212,7 +234,23 @@ def oracle(kind, payload):
         G = len(ObservableCollection(so).groups)
         if len(cs) != len(coeffs) * G:
             return f"partition {lab!r}: {len(cs)} circuits for {len(coeffs)} coefficients x {G} groups"
-        for c in cs:
+        groups = ObservableCollection(so).groups
+        for idx_c, c in enumerate(cs):
+            # measurement tail: basis rotation (h for X, sx for Y, nothing for Z) directly before the measurement of each measured qubit
+            cog = groups[idx_c % G]
+            gx, gz = cog.general_observable.x, cog.general_observable.z
+            meas = {}
+            for k_i, inst in enumerate(c.data):
+                if inst.operation.name == "measure" and c.find_bit(inst.clbits[0]).registers[0][0].name == "observable_measurements":
+                    meas[c.find_bit(inst.qubits[0]).index] = k_i
+            for q in (cog.pauli_indices if len(cog.pauli_indices) else []):
+                if q not in meas:
+                    return f"partition {lab!r}: qubit {q} of the commuting group is not measured"
+                prev = [i.operation.name for i in c.data[:meas[q]] if q in [c.find_bit(b).index for b in i.qubits]]
+                want_rot = "sx" if (gx[q] and gz[q]) else ("h" if gx[q] else None)
+                if want_rot and (not prev or prev[-1] != want_rot):
+                    return (f"partition {lab!r}, group {cog.general_observable.to_label()}: qubit {q} must be rotated with {want_rot} before its "
+                            f"measurement, found {prev[-1] if prev else None}")
             names = [i.operation.name for i in c.data]
             if any(n in ("qpd_1q", "qpd_2q", "qpd_measure", "cut_wire") for n in names):
                 return f"placeholder left in a subexperiment of partition {lab!r}"
